@@ -55,7 +55,7 @@ func (c *Conversation) genDataMsgWithFlag(message []byte, flag byte, tlvs ...tlv
 	dataMessage.sign(keys.sendingMACKey, header, c.version)
 
 	c.updateMayRetransmitTo(noRetransmit)
-	c.lastMessage(message)
+	c.rememberLastMessage(message)
 
 	x := dataMessageExtra{keys.extraKey}
 
